@@ -13,7 +13,18 @@
 #include <chrono>
 #include <fcntl.h>
 #include <unistd.h>
+#include <signal.h>
+#include <sys/time.h>
 #include "vp.h"
+
+// per-case CPU-time watchdog: a case that normally takes milliseconds and burns 20 s of CPU is a hang
+static void on_vtalrm(int) { const char m[] = "\nHANG: case exceeded the CPU-time guard\n"; if (write(2, m, sizeof m - 1) < 0) {} _exit(96); }
+static void arm_watchdog(int secs)
+{
+    struct itimerval it; memset(&it, 0, sizeof it);
+    it.it_value.tv_sec = secs;
+    setitimer(ITIMER_VIRTUAL, &it, NULL);
+}
 
 static std::string json_escape(const char *s)
 {
@@ -55,7 +66,10 @@ static int do_replay(const char *path, unsigned flags)
     if (!read_file(path, tape)) { fprintf(stderr, "cannot read %s\n", path); return 2; }
     struct vp_report rep;
     memset(&rep, 0, sizeof rep);
+    vp_render_live = 1;
+    arm_watchdog(20);
     int r = vp_executor.run(tape.data(), tape.size(), &rep, flags);
+    arm_watchdog(0);
     if (rep.render) printf("%s", rep.render);
     printf("RESULT: %d\n", r);
     printf("NONTRIVIAL: %d\n", rep.nontrivial);
@@ -78,6 +92,7 @@ struct Stats {
 int main(int argc, char **argv)
 {
     setvbuf(stdout, NULL, _IONBF, 0);
+    signal(SIGVTALRM, on_vtalrm);
     const char *replay = NULL, *outdir = NULL;
     int worker = 0;
     unsigned flags = 0;
@@ -155,7 +170,9 @@ int main(int argc, char **argv)
         }
         struct vp_report rep;
         memset(&rep, 0, sizeof rep);
+        arm_watchdog(20);
         int r = vp_executor.run(tape.data(), tape.size(), &rep, runflags);
+        arm_watchdog(0);
         if (r == 2) {
             internal = true;
             fail_tape = tape; fail_key = rep.key; fail_msg = rep.msg;
